@@ -293,7 +293,9 @@ Fixpoint all_close_m (exact : bool) (sc : Q) (mvs mms : list res) (os : list vre
 
 Record c11_case : Type := mk_case {
   cs_kind : kind; cs_n : nat; cs_exact : bool; cs_ops : list vop }.
-Definition c11_obs : Type := list vres.
+(** observation: the pull results, and (when recorded) the publication times held in the adapter's buffer
+    ([TimeCachingAdapter.data]) after the script *)
+Definition c11_obs : Type := list vres * option (list Z).
 
 (** per payload component: the pull results and the results on the missing-cell stream *)
 Definition c11_model (c : c11_case) : list (list res * list res) :=
@@ -304,7 +306,7 @@ Definition is_linear (k : kind) : bool := match k with KLinear => true | _ => fa
 
 Definition c11_check (x : c11_case * c11_obs) : bool :=
   let c := fst x in
-  let o := snd x in
+  let o := fst (snd x) in
   (* selection adapters involve no arithmetic: always compared exactly *)
   let exact := cs_exact c || negb (is_linear (cs_kind c)) in
   Nat.ltb 0 (cs_n c) && forallb (vop_ok (cs_n c)) (cs_ops c) && forallb (vres_ok (cs_n c)) o &&
@@ -312,4 +314,8 @@ Definition c11_check (x : c11_case * c11_obs) : bool :=
              let ops := map (proj_op j) (cs_ops c) in
              all_close_m exact (scale_of ops) (run true (cs_kind c) [] ops)
                          (run true (cs_kind c) [] (map (proj_mask j) (cs_ops c))) o j)
-          (seq 0 (cs_n c)).
+          (seq 0 (cs_n c)) &&
+  match snd (snd x) with
+  | None => true
+  | Some ts => list_eqb Z.eqb ts (map fst (final true (cs_kind c) [] (map (proj_op 0) (cs_ops c))))
+  end.
